@@ -305,7 +305,7 @@ func runIdxScan(c *core.Ctx) {
 			return
 		}
 		if n, st := structOf(fa); n != nil && n.Obj().Name() == "ReqFilter" && o.Path(fa.X) == fp {
-			name := st.Field(fa.Field).Name()
+			name := an.FieldNameHook(st, fa.Field)
 			for _, r := range *fa.Referrers() {
 				u, isLoad := r.(*ssa.UnOp)
 				if !isLoad || u.Referrers() == nil {
